@@ -1,5 +1,6 @@
 """Scheduler-level harness: generated task graphs, a schedule-controlling Runner (L1), a spy around the real
 runners (L3), trace recording, Gallina case emission and the property monitors for C01-C05, C10, C11, C17."""
+import json
 import logging
 import os
 import random
@@ -19,8 +20,8 @@ from common import g_bool, g_list, g_nats, g_opt, g_pair, g_val, subdir
 
 logging.getLogger('labtech').setLevel(logging.CRITICAL)
 
-MAXPAR = [None, None, 1, 1, 2, 2, 3, 3, None, None, None]          # per type index of U.SCHED_TYPES
-CACHEABLE = [True, False] * 4 + [True, True, True]
+MAXPAR = [None, None, 1, 1, 2, 2, 3, 3, None, None, None, None]          # per type index of U.SCHED_TYPES
+CACHEABLE = [True, False] * 4 + [True, True, True, True]
 
 
 # ------------------------------------------------------------------ generation
@@ -72,7 +73,7 @@ def first_occ(xs):
     return out
 
 
-def gen_case(rng, *, max_n=8, p_fail=0.15, runner='l1', allow_dups=True, ntypes=8):
+def gen_case(rng, *, max_n=8, p_fail=0.15, runner='l1', allow_dups=True, ntypes=8, p_unpicklable=0.0):
     n = rng.randint(1, max_n)
     shape = rng.choice(['random', 'random', 'chain', 'diamond', 'fan', 'shared_leaf'])
     types = [rng.randrange(ntypes) for _ in range(n)]
@@ -101,7 +102,7 @@ def gen_case(rng, *, max_n=8, p_fail=0.15, runner='l1', allow_dups=True, ntypes=
         leaves = []
         for d in ds:
             leaves.append(['task', d, 0])
-            if allow_dups and rng.random() < 0.2:
+            if allow_dups and rng.random() < (0.5 if runner in ('fork', 'spawn') else 0.2):
                 leaves.append(['task', d, rng.choice([0, 1, 2])])   # duplicate: same / equal-but-distinct object
         rng.shuffle(leaves)
         spec = gen_struct(rng, leaves)
@@ -135,6 +136,11 @@ def gen_case(rng, *, max_n=8, p_fail=0.15, runner='l1', allow_dups=True, ntypes=
     case = dict(n=n, types=types, specs=specs, reads=reads, behs=behs, req=req, storage=storage,
                 bust=rng.random() < 0.15, cont=rng.random() < 0.7, runner=runner,
                 max_workers=rng.choice([1, 2, 3, None]), sched_seed=rng.randrange(1 << 30), pre=[])
+    if storage == 'local' and p_unpicklable and runner in ('l1', 'serial'):
+        # some failures happen while the result is being saved (run() returns, the value cannot be pickled)
+        for t in range(n):
+            if behs[t] == 'raise' and CACHEABLE[types[t]] and types[t] != 10 and rng.random() < p_unpicklable:
+                behs[t] = 'unpicklable'
     if storage == 'local':
         okstar = pure_ok(case)
         cand = [t for t in range(n) if CACHEABLE[types[t]] and okstar[t] is not None]
@@ -217,7 +223,10 @@ class Built:
     def _make(self, t, deps):
         case = self.case
         cls = U.SCHED_TYPES[case['types'][t]]
-        obj = cls(label=t, deps=deps, beh=case['behs'][t], reads=tuple(case['reads'][t]))
+        beh = case['behs'][t]
+        if cls is U.TRw:
+            beh = f' {beh.upper()} '          # spelt non-canonically; the type's post_init canonicalises it
+        obj = cls(label=t, deps=deps, beh=beh, reads=tuple(case['reads'][t]))
         self.all_objects.append(obj)
         return obj
 
@@ -495,7 +504,8 @@ def run_case(case, workdir=None, backend_factory=None, catch_ki=False, around_ru
     elif case['runner'] == 'l1':
         backend = L1Backend(rng, rec)
     else:
-        inner = {'serial': SerialRunnerBackend, 'fork': ForkRunnerBackend, 'spawn': SpawnRunnerBackend}[case['runner']]()
+        # the backend object is the one Lab itself builds for the backend *name* (the string dispatch is part of the code under test)
+        inner = Lab(storage=None, runner_backend=case['runner'], notebook=False).runner_backend
         backend = SpyBackend(inner, rec)
     lab = Lab(storage=storage, continue_on_failure=case['cont'], max_workers=case['max_workers'],
               runner_backend=backend, notebook=False, context={'a': 1})
@@ -506,6 +516,12 @@ def run_case(case, workdir=None, backend_factory=None, catch_ki=False, around_ru
             start=datetime(2020, 1, 1, 0, 0, t), duration=timedelta(seconds=t + 1))))
     obs = dict(outcome=None, returned=None, exc=None)
     import contextlib
+    recdir = None
+    if case['runner'] == 'serial' and backend_factory is None and not os.environ.get('LV_RECDIR'):
+        # where did the tasks of a serial run execute?
+        recdir = os.path.join(workdir, 'rec')
+        os.makedirs(recdir, exist_ok=True)
+        os.environ['LV_RECDIR'] = recdir
     try:
         with watchdog(case.get('watchdog_s', 45)):
             with (around_run if around_run is not None else contextlib.nullcontext()):
@@ -534,6 +550,16 @@ def run_case(case, workdir=None, backend_factory=None, catch_ki=False, around_ru
         obs['outcome'] = 'returned'
         obs['returned'] = [[built.tid_of[k], v] for k, v in res.items()]
         obs['returned_identity_ok'] = all(any(k is r for r in built.req) for k in res)
+    if recdir is not None:
+        os.environ.pop('LV_RECDIR', None)
+        import threading
+        elsewhere = 0
+        for fn in os.listdir(recdir):
+            with open(os.path.join(recdir, fn)) as fh:
+                r = json.load(fh)
+            if r['kind'] == 'start' and (r['pid'] != os.getpid() or r['thread'] != threading.get_ident()):
+                elsewhere += 1
+        obs['serial_elsewhere'] = elsewhere
     obs['events'] = rec.ev
     obs['batches'] = rec.batches
     obs['final_rmap'] = rec.final_rmap
